@@ -12,6 +12,7 @@ import (
 	"github.com/gofiber/utils/v2"
 	"github.com/tinylib/msgp/msgp"
 	"github.com/valyala/bytebufferpool"
+	"github.com/valyala/fasthttp"
 )
 
 // Pool for redirection
@@ -298,6 +299,12 @@ func (r *Redirect) Back(fallback ...string) error {
 func (r *Redirect) parseAndClearFlashMessages() {
 	// parse flash messages
 	cookieValue := r.c.app.getBytes(r.c.Cookies(FlashCookieName))
+	if len(cookieValue) == 0 {
+		return
+	}
+
+	// The client must present the messages only once: expire the cookie with this response
+	r.c.Cookie(&Cookie{Name: FlashCookieName, Path: "/", MaxAge: -1, Expires: fasthttp.CookieExpireDelete})
 
 	// Every message takes at least one byte: refuse a header announcing more than the cookie holds
 	if n, rest, err := msgp.ReadArrayHeaderBytes(cookieValue); err != nil || uint64(n) > uint64(len(rest)) {
